@@ -459,14 +459,23 @@ func tfCheckPrefixes(prop string, c *TFCase, log []Commit, out *Outcome) {
 	// clearSince[id]: at some instant since input id became tearing-down no dependent (as the cleanup handler counts
 	// them) existed - the handler may have succeeded then; dependents created afterwards by third parties are not
 	// the controller's business
+	// The flag is kept per handler (the transform's output by id / the label-selected children): the handlers of a
+	// Combine run one after the other, each must have seen its own dependents gone, not necessarily at the same instant
+	// (another controller may re-create an output between the two checks; that is not the cleanup controller's doing).
 	clearSince := map[string]bool{}
+	clearOut, clearCh := map[string]bool{}, map[string]bool{}
 	createdAt := map[string]int{} // dependent id -> commit index of its creation
 	tdAt := map[string]int{}      // input id -> commit index at which it became tearing-down
-	dependents := func(id string) []string {
-		var out []string
+	depOut := func(id string) []string {
 		if _, ok := B0[id]; ok && (c.Cleanup == "combine" || c.Cleanup == "combine-rev") {
-			out = append(out, "output "+id)
+			return []string{"output " + id}
 		}
+		return nil
+	}
+	var depCh func(id string) []string
+	dependents := func(id string) []string { return append(depOut(id), depCh(id)...) }
+	depCh = func(id string) []string {
+		var out []string
 		for cid, ch := range C0 {
 			if !strings.Contains(ch.Labels, "parent="+id+";") {
 				continue
@@ -520,13 +529,21 @@ func tfCheckPrefixes(prop string, c *TFCase, log []Commit, out *Outcome) {
 		}
 		for id, in := range A0 {
 			if in.Phase != "tearingDown" {
-				clearSince[id] = false
-			} else if len(dependents(id)) == 0 {
-				clearSince[id] = true
+				clearOut[id], clearCh[id] = false, false
+			} else {
+				if len(depOut(id)) == 0 {
+					clearOut[id] = true
+				}
+				if len(depCh(id)) == 0 {
+					clearCh[id] = true
+				}
 			}
+			clearSince[id] = clearOut[id] && clearCh[id]
 		}
 		if cm.Type == TypeA && cm.Kind == "destroy" {
 			delete(clearSince, cm.ID)
+			delete(clearOut, cm.ID)
+			delete(clearCh, cm.ID)
 		}
 		switch cm.Type {
 		case TypeB:
@@ -561,7 +578,7 @@ func tfCheckPrefixes(prop string, c *TFCase, log []Commit, out *Outcome) {
 			if c.Cleanup != "" && cm.Kind == "put" && existed && hasFin(prev.Fins, cleanupCtrlName) && !hasFin(cm.Snap.Fins, cleanupCtrlName) && prev.Phase == "tearingDown" {
 				// I3: the removal handler can only have succeeded at an instant without dependents
 				if !clearSince[cm.ID] {
-					fail("cleanup-released-early", i, "cleanup controller released its finalizer on torn-down input %s although dependents existed at every instant since the teardown: now %v", cm.ID, dependents(cm.ID))
+					fail("cleanup-released-early", i, "cleanup controller released its finalizer on torn-down input %s although the dependents of one of its handlers existed at every instant since the teardown (output gone at some instant: %v, children gone at some instant: %v): now %v", cm.ID, clearOut[cm.ID], clearCh[cm.ID], dependents(cm.ID))
 					return
 				}
 			}
